@@ -44,8 +44,15 @@ def tok(path):
     return "w" + re.sub(r"[^0-9a-z]", "", path)
 
 
+# paragraph items: "p" text in a run, "e" a run without text, "m" a paragraph mark only (no run), "h" the run sits in a wrapper element
+# of the paragraph (docx: w:hyperlink / w:ins / w:smartTag); pptx cell markers (first item of a cell): "hm" / "vm" = the covered
+# continuation cell of a horizontally / vertically merged region (holds no text, keeps the row at c grid columns), "h0" = an ordinary
+# cell that spells the default out (hMerge="0" vMerge="false")
+CELL_MARKS = ("hm", "vm", "h0")
+
+
 def par_text(it, path):
-    return "" if it == "e" else tok(path)
+    return "" if it in ("e", "m") else tok(path)
 
 
 def tables_in_order(doc):
@@ -83,7 +90,7 @@ def html_rule(cell, path):
 
 
 def pptx_rule(cell, path):
-    return "\n".join(par_text(it, f"{path}i{ii}") for ii, it in enumerate(cell) if not is_table(it)).strip()
+    return "\n".join(par_text(it, f"{path}i{ii}") for ii, it in enumerate(cell) if not is_table(it) and it not in CELL_MARKS).strip()
 
 
 def zipped(files):
@@ -96,8 +103,13 @@ def zipped(files):
 
 # ---------------------------------------------------------------------- docx --
 def docx_bytes(doc):
-    def par(text):
-        return f'<w:p><w:r><w:t xml:space="preserve">{text}</w:t></w:r></w:p>'
+    def par(text, kind="p"):
+        run = f'<w:r><w:t xml:space="preserve">{text}</w:t></w:r>'
+        if kind == "m":
+            return "<w:p><w:pPr/></w:p>"
+        if kind == "h":
+            return f'<w:p><w:pPr/><w:hyperlink w:anchor="top" w:history="1">{run}</w:hyperlink></w:p>'
+        return f"<w:p>{run}</w:p>"
 
     def table(t, path):
         rows = ""
@@ -107,7 +119,7 @@ def docx_bytes(doc):
                 items = ""
                 for ii, it in enumerate(c):
                     ip = f"{path}.r{ri}c{ci}i{ii}"
-                    items += table(it, ip) if is_table(it) else par(par_text(it, ip))
+                    items += table(it, ip) if is_table(it) else par(par_text(it, ip), it)
                 cells += f"<w:tc><w:tcPr/>{items}</w:tc>"
             rows += f"<w:tr>{cells}</w:tr>"
         return f"<w:tbl><w:tblPr/><w:tblGrid/>{rows}</w:tbl>"
@@ -133,8 +145,13 @@ def _pptx_slide_xml(tables):
         for ri, r in enumerate(t["rows"]):
             cells = ""
             for ci, c in enumerate(r):
-                ps = "".join(f"<a:p><a:r><a:t>{par_text(it, f'{bp(ti, t)}.r{ri}c{ci}i{ii}')}</a:t></a:r></a:p>" for ii, it in enumerate(c) if not is_table(it))
-                cells += f"<a:tc><a:txBody><a:bodyPr/>{ps or '<a:p/>'}</a:txBody><a:tcPr/></a:tc>" if c else "<a:tc><a:tcPr/></a:tc>"
+                ps = "".join(f"<a:p><a:r><a:t>{par_text(it, f'{bp(ti, t)}.r{ri}c{ci}i{ii}')}</a:t></a:r></a:p>" for ii, it in enumerate(c) if not is_table(it) and it not in CELL_MARKS)
+                at = ' hMerge="1"' if "hm" in c else (' vMerge="1"' if "vm" in c else (' hMerge="0" vMerge="false"' if "h0" in c else ""))
+                if ci + 1 < len(r) and "hm" in r[ci + 1]:
+                    at += ' gridSpan="2"'
+                if ri + 1 < len(t["rows"]) and ci < len(t["rows"][ri + 1]) and "vm" in t["rows"][ri + 1][ci]:
+                    at += ' rowSpan="2"'
+                cells += f"<a:tc{at}><a:txBody><a:bodyPr/>{ps or '<a:p/>'}</a:txBody><a:tcPr/></a:tc>" if c else "<a:tc><a:tcPr/></a:tc>"
             rows += f'<a:tr h="370840">{cells}</a:tr>'
         frames += (f'<p:graphicFrame><p:nvGraphicFramePr><p:cNvPr id="{ti + 4}" name="Table {ti}"/><p:cNvGraphicFramePr/><p:nvPr/></p:nvGraphicFramePr>'
                    f'<p:xfrm><a:off x="0" y="{int(bp(ti, t)[1:]) * 1000000}"/><a:ext cx="100" cy="100"/></p:xfrm><a:graphic><a:graphicData uri="http://schemas.openxmlformats.org/drawingml/2006/table">'
@@ -477,7 +494,10 @@ ODS_LITERALS = [("date", "date-value", "2024-01-02", "2024-01-02"), ("date", "da
                 ("time", "time-value", "PT10H30M00S", "PT10H30M00S"), ("time", "time-value", "PT00H00M00S", "PT00H00M00S"),
                 ("boolean", "boolean-value", "true", True), ("boolean", "boolean-value", "false", False),
                 ("float", "value", "3", 3), ("float", "value", "2.5", 2.5), ("float", "value", "0", 0), ("float", "value", "-4.0", -4),
-                ("currency", "value", "1250.75", 1250.75), ("percentage", "value", "0.5", 0.5)]
+                ("currency", "value", "1250.75", 1250.75), ("percentage", "value", "0.5", 0.5),
+                # xsd:double lexical forms with an exponent / explicit sign / bare point (LibreOffice: 1E+020, 5E-05)
+                ("float", "value", "1E+020", 10 ** 20), ("float", "value", "5E-05", 5e-05), ("float", "value", "1e3", 1000), ("currency", "value", "-25E-2", -0.25),
+                ("percentage", "value", "1.5E+3", 1500), ("float", "value", "2.5e-1", 0.25), ("float", "value", "+7", 7), ("float", "value", "12.", 12)]
 
 
 def search_ods_values():
@@ -672,7 +692,23 @@ def search_xls_values(branch):
         if not ok:
             return {"target": "xls_extractor.py::_get_cell_values", "inputs": {"ctype": "XL_CELL_DATE", "value": v, "datemode": 0},
                     "expected": "ISO 8601 text of the date / time", "observed": [native, text, single]}
-    # main clause: every cell type
+    # main clause: date cells in both date systems of the workbook (DATEMODE record: 0 = 1900-based, 1 = 1904-based); the expected text
+    # is computed from the epoch, not by xlrd
+    for mode, epoch in ((0, datetime.datetime(1899, 12, 30)), (1, datetime.datetime(1904, 1, 1))):
+        if branch != "main":
+            break
+
+        class WBM:
+            datemode = mode
+        for v in (45000.0, 45000.75, 366.5):
+            d = epoch + datetime.timedelta(days=v)
+            want = d.strftime("%Y-%m-%d") if (d.hour, d.minute, d.second) == (0, 0, 0) else d.strftime("%Y-%m-%d %H:%M:%S")
+            native, _t = x._get_cell_values(Cell(xlrd.XL_CELL_DATE, v), WBM())
+            single = x._get_cell_value(Cell(xlrd.XL_CELL_DATE, v), WBM())
+            for r in (native, single):
+                if not (isinstance(r, str) and r.replace("T", " ") == want):
+                    return {"target": "xls_extractor.py::_get_cell_values", "inputs": {"ctype": "XL_CELL_DATE", "value": v, "datemode": mode}, "expected": want,
+                            "observed": [native, single], "detail": f"date serial {v} in a workbook with datemode={mode} ({epoch.year + (1 if mode == 0 else 0)} date system)"}
     for ct, v, want in ((xlrd.XL_CELL_EMPTY, "", None), (xlrd.XL_CELL_TEXT, "abc", "abc"), (xlrd.XL_CELL_NUMBER, 3.0, 3), (xlrd.XL_CELL_NUMBER, 2.5, 2.5),
                         (xlrd.XL_CELL_NUMBER, -4.0, -4), (xlrd.XL_CELL_BOOLEAN, 1, True), (xlrd.XL_CELL_BOOLEAN, 0, False), (xlrd.XL_CELL_DATE, 45000.0, "2023-03-15"),
                         (xlrd.XL_CELL_DATE, 45000.75, "2023-03-15 18:00:00")):
@@ -699,6 +735,12 @@ def search_xlsx_values():
     return None
 
 
+# merged regions of a DrawingML table (gridSpan + hMerge / rowSpan + vMerge continuation cells) and explicit-default attributes
+PPTX_MERGED = [[T([[["p"], ["hm"], ["p"]], [["p"], ["p"], ["p"]]])], [T([[["p"], ["p"]], [["vm"], ["p"]]])], [T([[["h0", "p"], ["p"]]])], [T([[["p"], ["hm"]], [["vm"], ["p"]]])]]
+# paragraphs whose runs are wrapped (hyperlink) / that are a bare paragraph mark, alone and between text paragraphs
+DOCX_RUNS = [[T([[["h"]]])], [T([[["p", "m", "p"]]])], [T([[["p", "h"], ["m"]]])], [T([[["h", "m"]], [["p"]]])]]
+
+
 def search_shapes(obligation, skip_known=False):
     """small native scope for a bounded obligation without a witness (skip_known: leave out the constructs of the recorded
     known findings -- nested tables, html multi-paragraph cells, epub inline markup, first-row rewriting of xlsx / xls)"""
@@ -718,6 +760,9 @@ def search_shapes(obligation, skip_known=False):
                 shapes += [[dict(T([[P, P]]), wrap=w), T([[P]])] for w in (["div"], ["font", "center"], ["a", "span"], ["b", "i"])]
             if fname == "pptx_extractor.py":
                 shapes = [[b for b in s_ if is_table(b)] for s_ in shapes if not any(is_table(b) and b["hdr"] for b in s_)]
+                shapes += PPTX_MERGED
+            if fname == "docx_extractor.py":
+                shapes += DOCX_RUNS
             if fname == "odp_extractor.py":
                 shapes = [s_ for s_ in shapes if len([b for b in s_ if is_table(b)]) >= 1 and not any("like" in b for b in s_ if is_table(b))]
             if fname == "odp_extractor.py":
@@ -743,6 +788,9 @@ def search_shapes(obligation, skip_known=False):
             shapes += [[T([[["/"], P]])], [T([[P, ["/"]], [["/"], P]], 1)], [T([[["/"]]])]]
         if fname == "pptx_extractor.py":
             shapes = [s for s in shapes if len(s) == 1 and not any(is_table(i) for r in s[0]["rows"] for c in r for i in c) and not s[0]["hdr"]]
+            shapes += PPTX_MERGED
+        if fname == "docx_extractor.py":
+            shapes += DOCX_RUNS
         if fname == "odp_extractor.py":
             shapes = [s for s in shapes if len(s) == 1]
     for sh in shapes:
